@@ -1617,3 +1617,35 @@ func eachInstrDeep(fn *ssa.Function, f func(in, site ssa.Instruction, tr func(ss
 	}
 	rec(fn, nil, map[ssa.Value]ssa.Value{}, 0)
 }
+
+// underFlagTest: the call is the first block of the true arm of `if x.flag` (a guard moved from the callee to its
+// caller); returns the block holding that test, nil otherwise.
+func underFlagTest(rc ssa.CallInstruction, flag *types.Var) *ssa.BasicBlock {
+	b := rc.Block()
+	if b == nil || len(b.Preds) != 1 {
+		return nil
+	}
+	pb := b.Preds[0]
+	iff, ok := pb.Instrs[len(pb.Instrs)-1].(*ssa.If)
+	if !ok || pb.Succs[0] != b || !loadOfField(iff.Cond, flag) {
+		return nil
+	}
+	return pb
+}
+
+// allCallsUnderFlag: fn is unexported, is called somewhere, and every call of it is made under `if x.flag`.
+func allCallsUnderFlag(p *Prog, fn *ssa.Function, flag *types.Var) bool {
+	if fn.Object() == nil || fn.Object().Exported() {
+		return false
+	}
+	sites := p.callers(fn)
+	if len(sites) == 0 {
+		return false
+	}
+	for _, site := range sites {
+		if underFlagTest(site, flag) == nil {
+			return false
+		}
+	}
+	return true
+}
